@@ -81,6 +81,9 @@ type script struct {
 	Reader, Writer bool
 	// MaxRecv caps the number of messages accepted (phantom floods).
 	MaxRecv int
+	// StopAfter > 0: stop receiving after that many messages (the handler
+	// ends the call while the client's stream is still open).
+	StopAfter int
 }
 
 // rec is the handler-side log of one stream. All access goes through mu.
@@ -100,6 +103,7 @@ type rec struct {
 	ret      error
 	finished bool
 	done     chan struct{}
+	started  chan struct{}
 }
 
 type snapshot struct {
@@ -221,7 +225,7 @@ func (e *env) open(sc script) (string, *rec) {
 	defer e.mu.Unlock()
 	e.seq++
 	id := fmt.Sprintf("k%d", e.seq)
-	rc := &rec{sc: sc, done: make(chan struct{})}
+	rc := &rec{sc: sc, done: make(chan struct{}), started: make(chan struct{})}
 	e.recs[id] = rc
 	return id, rc
 }
@@ -246,6 +250,8 @@ func (e *env) lookup(ctx context.Context) *rec {
 func (e *env) Unary(ctx context.Context, md protoreflect.MethodDescriptor, in proto.Message) (proto.Message, error) {
 	return nil, status.Error(codes.Unimplemented, "no unary methods")
 }
+
+var errStopped = errors.New("verif: handler stopped receiving")
 
 // cleanEnd reports whether a terminal receive error is a clean end of
 // stream. On WebSocket the client's close frame is the end-of-stream signal.
@@ -285,6 +291,7 @@ func (e *env) Stream(md protoreflect.MethodDescriptor, ss grpc.ServerStream) (re
 	rc.method = string(md.Name())
 	sc := rc.sc
 	rc.mu.Unlock()
+	close(rc.started)
 	defer func() {
 		rc.mu.Lock()
 		rc.ret = ret
@@ -388,6 +395,9 @@ func (e *env) Stream(md protoreflect.MethodDescriptor, ss grpc.ServerStream) (re
 					}
 				}
 			}
+			if sc.StopAfter > 0 && n >= sc.StopAfter {
+				break
+			}
 		}
 	} else {
 		in := vschema.NewMsg(md.Input())
@@ -402,10 +412,15 @@ func (e *env) Stream(md protoreflect.MethodDescriptor, ss grpc.ServerStream) (re
 		rc.mu.Unlock()
 		recvErr = io.EOF
 	}
-	rc.mu.Lock()
-	rc.recvErr, rc.recvEnd = recvErr, true
-	rc.mu.Unlock()
-	if !cleanEnd(recvErr, websocket) {
+	if recvErr == nil {
+		// stopped early: the terminal event of the stream is not observed
+		recvErr = errStopped
+	} else {
+		rc.mu.Lock()
+		rc.recvErr, rc.recvEnd = recvErr, true
+		rc.mu.Unlock()
+	}
+	if recvErr != errStopped && !cleanEnd(recvErr, websocket) {
 		return recvErr
 	}
 
